@@ -9,7 +9,10 @@ import vlib
 def plugins():
     out = []
     for f in sorted(glob.glob(os.path.join(HERE, 'props', 'c[0-9]*.py'))):
-        out.append(importlib.import_module('props.' + os.path.basename(f)[:-3]))
+        try:
+            out.append(importlib.import_module('props.' + os.path.basename(f)[:-3]))
+        except Exception as e:
+            print('setup: plugin %s cannot be imported: %s' % (f, e))
     return out
 
 def main():
